@@ -4,8 +4,9 @@
 against the mutated tree (VERIF_REPO) and record everything in /verif/seeded/<ID>/."""
 import json, os, shutil, subprocess, sys, time
 src, pid = sys.argv[1], sys.argv[2]
+suffix = sys.argv[3] if len(sys.argv) > 3 else ""
 VERIF = "/verif"
-wt = "/tmp/sv/%s" % pid
+wt = "/tmp/sv/%s%s" % (pid, suffix)
 def sh(cmd, cwd=None, env=None, timeout=3000):
     p = subprocess.run(cmd, shell=True, cwd=cwd, env=env, stdout=subprocess.PIPE, stderr=subprocess.STDOUT, text=True, timeout=timeout)
     return p.returncode, p.stdout
@@ -48,7 +49,7 @@ rc2, out2 = sh("sh %s %s" % (run, wt), cwd=src, timeout=1200)
 res["demo_rc_without_change"] = rc2
 rcq, outq = sh("./check %s --tier quick" % pid, cwd=VERIF, env=env, timeout=3000)
 res["check_rc_without_change"] = rcq
-dst = os.path.join(VERIF, "seeded", pid)
+dst = os.path.join(VERIF, "seeded", pid + suffix)
 os.makedirs(dst, exist_ok=True)
 open(os.path.join(dst, "patch.diff"), "w").write(res_patch)
 for f in os.listdir(src):
